@@ -450,3 +450,111 @@ def formula_probe(text):
                 res = "ERR " + tl.classify_exc(ex)
             out.append(({"tel": "tel", "del": "del", "__tel_head": "head"}[a.term.name], tl.dump_tterm(t), res))
     return out
+
+
+# --------------------------------------------------------------------------- rules emitted for head formulas (ClauseToRule)
+
+def check_head_rules(text, H, model_exe):
+    """
+    Runs telingo on `text` with `translate_clause` of theory/head.py wrapped: for every clause of every head formula at every
+    step, what the atom base says about its atoms *before* the call, and the rule the call writes.  Compared with the model's
+    `ruleShape` (command `hrules`): clause by clause, element by element — a head literal exactly for the atoms the atom base
+    knows, the negated literal of the body formula the model names for every shifted part (through an auxiliary atom when that
+    literal is itself negative), nothing else.
+    """
+    import clingo, telingo.theory.head as hd
+    rec = {"pairs": {}, "atoms": {}, "vals": {}, "pairs_at": {}}
+    calls = []
+    orig = hd.translate_clause
+    def wrapped(clause, ctx, step, body_literal):
+        clause = list(clause)
+        view = []
+        for x in clause:
+            if getattr(x, "ast_type", None) == "TelAtom":
+                sym = clingo.Function(x.name, list(x.arguments) + [clingo.Number(step)], x.positive)
+                a = ctx.symbols[sym]
+                key = ("" if x.positive else "-") + x.name + "(" + ",".join(str(y) for y in x.arguments) + ")"
+                view.append(("atom", key, a is not None, None if a is None else a.literal))
+            elif getattr(x, "ast_type", None) == "TelShift":
+                view.append(("shift",))
+            else:
+                view.append(("other", str(x)))
+        blog = rec.setdefault("backend", [])
+        n = len(blog)
+        r = orig(clause, ctx, step, body_literal)
+        calls.append({"step": step, "literal": body_literal, "view": view, "statements": list(blog[n:]), "pairs": dict(rec["pairs"])})
+        return r
+    hd.translate_clause = wrapped
+    try:
+        with instrumented(rec):
+            try:
+                tl.run_telingo(text, H)
+            except tl.Timeout:
+                return {"head_rules": 0, "skipped": "timeout"}, []
+    finally:
+        hd.translate_clause = orig
+    # theory atoms by literal: (own step, term dump)
+    heads = {}
+    for hh, ats in rec["atoms"].items():
+        for name, stp, els, lit in ats:
+            if name == "__tel_head" and len(els) == 1 and len(els[0][2]) == 0:
+                heads[lit] = (stp, els[0][1])
+    groups = {}
+    for c in calls:
+        groups.setdefault((c["literal"], c["step"]), []).append(c)
+    keys = [k for k in groups if k[0] in heads and k[1] >= heads[k[0]][0]]
+    outs = model_exe.batch([tl.sexp(("hrules", heads[lit][1], step - heads[lit][0])) for lit, step in keys])
+    dis, nrules = [], 0
+    for (lit, step), out in zip(keys, outs):
+        got = groups[(lit, step)]
+        if out.startswith("ERR"):
+            dis.append({"layer": "L4-head-rules", "text": text, "what": "the model rejects a head formula the code translated", "model": out})
+            continue
+        want = tl.parse_sexp(out)
+        if len(want) != len(got):
+            dis.append({"layer": "L4-head-rules", "text": text, "step": step, "what": "number of rules for the formula: model {} / code {}".format(len(want), len(got))})
+            continue
+        for wc, c in zip(want, got):
+            nrules += 1
+            rules = [st for st in c["statements"] if st[0] == "rule"]
+            if not rules:
+                dis.append({"layer": "L4-head-rules", "text": text, "step": step, "what": "no rule written for a clause"}); continue
+            main, auxs = rules[-1], rules[:-1]
+            head, body = list(main[1]), list(main[2])
+            aux_of = {}          # negative literal -> the auxiliary atoms defined from it, in the order they were written
+            for st in auxs:
+                if len(st[1]) == 1 and len(st[2]) == 1:
+                    aux_of.setdefault(st[2][0], []).append(st[1][0])
+            exp_head, exp_body, bad = [], [lit], None
+            if len(wc) != len(c["view"]):
+                bad = "number of clause elements: model {} / code {}".format(len(wc), len(c["view"]))
+            else:
+                for we, v in zip(wc, c["view"]):
+                    if we[0] == "h":
+                        if v[0] != "atom" or v[1] != we[1]:
+                            bad = "element: model head atom {} / code {}".format(we[1], v); break
+                        if v[2]:
+                            exp_head.append(v[3] if v[3] != 0 else "fresh")
+                    elif we[0] == "b":
+                        if v[0] != "shift":
+                            bad = "element: model shifted part {} / code {}".format(we[1], v); break
+                        L = c["pairs"].get((we[1], step))
+                        if L is None:
+                            bad = "the body formula {} was not translated at step {}".format(we[1], step); break
+                        if L < 0:
+                            if not aux_of.get(L):
+                                bad = "negative literal of {} without auxiliary atom".format(we[1]); break
+                            L = aux_of[L].pop(0)
+                        exp_body.append(-L)
+                    else:
+                        if v[0] != "other":
+                            bad = "element: model ignores it / code {}".format(v); break
+            if bad is None:
+                if len(head) != len(exp_head) or any(e != "fresh" and e != g for e, g in zip(exp_head, head)):
+                    bad = "rule head: expected {} / written {}".format(exp_head, head)
+                elif body != exp_body:
+                    bad = "rule body: expected {} / written {}".format(exp_body, body)
+            if bad:
+                dis.append({"layer": "L4-head-rules", "text": text, "step": step, "what": bad, "model_clause": str(wc)[:300]})
+                break
+    return {"head_rules": nrules, "head_formula_steps": len(keys)}, dis
